@@ -928,13 +928,28 @@ func superviseCrash(r *mon.Run, res mon.ChildResult) (lc *logged) {
 	}
 	log := crashLog(res)
 	what := fmt.Sprintf("the child process executing contract code died (exit %d): %s", res.Exit, reInUse.ReplaceAllString(firstFatalLine(log), ""))
-	w := map[string]interface{}{"log": reInUse.ReplaceAllString(cleanStack(log, 3000), "")}
+	w := map[string]interface{}{"log": firstGoroutine(reInUse.ReplaceAllString(cleanStack(log, 6000), ""))}
 	if lc != nil {
 		w["case"] = lc.Case
 	}
 	r.Violation(fatalSignature(log, lc), what, w)
 	r.Count("child_crashes", 1)
 	return lc
+}
+
+var reGp = regexp.MustCompile(` gp=\S+ m=\S+( mp=\S+)?`)
+
+// firstGoroutine keeps the fatal message and the stack of the goroutine that died.
+func firstGoroutine(log string) string {
+	log = reGp.ReplaceAllString(log, "")
+	i := strings.Index(log, "goroutine N")
+	if i < 0 {
+		return trim(log, 3000)
+	}
+	if j := strings.Index(log[i:], "\n\n"); j >= 0 {
+		return log[:i+j]
+	}
+	return trim(log, 3000)
 }
 
 var reInUse = regexp.MustCompile(` \(\d+ in use\)`)
@@ -1097,7 +1112,7 @@ func main() {
 		MustObserve: []string{"steps", "frames", "memory_growth_steps", "nontrivial_runs", "precompile_direct", "precompile_vectors_ok", "depth_limit_reached", "stack_1024_reached",
 			"fault:oog", "fault:invalid-opcode", "fault:stack-underflow", "fault:stack-overflow", "fault:bad-jump", "fault:write-protection", "fault:revert", "fault:depth",
 			"failed_top_calls_root_compared", "max_table_defined_none", "max_table_defined_p014", "max_table_defined_p014p022", "max_table_defined_all",
-			"cases:rawcode", "cases:rawinit", "cases:weighted", "cases:memext", "cases:custom", "cases:recursion", "cases:precompile", "cases:precompile-call", "cases:stackfill", "cases:fault"},
+			"cases:rawcode", "cases:rawinit", "cases:weighted", "cases:memext", "cases:custom", "cases:recursion", "cases:precompile", "cases:precompile-call", "cases:stackfill", "cases:fault", "cases:subcall", "cases:gaswrap", "cases:createloop"},
 	})
 }
 
